@@ -901,6 +901,260 @@ theorem ns_all (L : Limits) (P : Prog) (hlax : P.lax = false) (M : Nat) (hl : L.
     obtain ⟨w1, h1, h2⟩ := h
     exact nsok_trans (ih1 _ h1) (ih2 w1 _ h2)
 
+/-! ## Every mode: what a buffer holds never exceeds its limit (LAX / WARN included)
+
+In LAX/WARN mode the render loop drops a node's error and goes on from the state the failing node left behind. A failed
+`LimitedStringIO.write` has already increased `size` (without writing), so `size = utf8Len text` is lost — what remains
+true in every mode is `utf8Len text ≤ size` and `utf8Len text ≤ limit`. -/
+
+/-- the state of either outcome -/
+def resW : Res → W
+  | .ok w => w
+  | .error (_, w) => w
+
+def LInv (bk : BK) (b : Buf) : Prop :=
+  match bk with
+  | .real (some l) => utf8Len b.text ≤ b.size ∧ utf8Len b.text ≤ l
+  | _ => True
+
+def LaxOK (bk : BK) (b b' : Buf) : Prop := (bk = .null → b' = b) ∧ (LInv bk b → LInv bk b')
+
+theorem laxok_refl (bk : BK) (b : Buf) : LaxOK bk b b := ⟨fun _ => rfl, id⟩
+
+theorem laxok_of_eq {bk : BK} {b b' : Buf} (h : b' = b) : LaxOK bk b b' := by rw [h]; exact laxok_refl _ _
+
+theorem laxok_trans {bk : BK} {b b1 b2 : Buf} (h1 : LaxOK bk b b1) (h2 : LaxOK bk b1 b2) : LaxOK bk b b2 :=
+  ⟨fun hn => by rw [h2.1 hn, h1.1 hn], fun hi => h2.2 (h1.2 hi)⟩
+
+theorem laxok_blank {bk : BK} {blank : Bool} {b b' : Buf} (h : LaxOK (if blank then .null else bk) b b') :
+    LaxOK bk b b' := by
+  cases blank with
+  | false => simpa using h
+  | true =>
+    have : b' = b := h.1 (by simp)
+    rw [this]; exact laxok_refl _ _
+
+theorem lax_bind {bk : BK} {b : Buf} {a : Res} {f : W → Res} (h1 : LaxOK bk b (resW a).buf)
+    (h2 : ∀ w1, a = .ok w1 → LaxOK bk w1.buf (resW (f w1)).buf) : LaxOK bk b (resW (bindR a f)).buf := by
+  cases a with
+  | error p => exact h1
+  | ok w1 => exact laxok_trans h1 (h2 w1 rfl)
+
+theorem lax_guard {bk : BK} {b0 : Buf} {b : Bool} {e : Err} {w : W} {k : Res} (hw : LaxOK bk b0 w.buf)
+    (hk : LaxOK bk b0 (resW k).buf) : LaxOK bk b0 (resW (guardE b e w k)).buf := by
+  cases b with
+  | false => exact hk
+  | true => exact hw
+
+theorem resW_catch (lax : Bool) (r : Res) : resW (catchR lax r) = resW r := by
+  cases r with
+  | error p => cases p; cases lax <;> rfl
+  | ok w => rfl
+
+theorem resW_restore_buf (w : W) (r : Res) : (resW (restoreW w r)).buf = (resW r).buf := by
+  cases r with
+  | error p => cases p; rfl
+  | ok w1 => rfl
+
+theorem lax_depth {bk : BK} {b0 : Buf} {p : Prop} [Decidable p] {e : Err} {w : W} {k : Res} (hw : LaxOK bk b0 w.buf)
+    (hk : ¬ p → LaxOK bk b0 (resW k).buf) : LaxOK bk b0 (resW (if p then .error (e, w) else k)).buf := by
+  by_cases h : p
+  · simp [h, resW, hw]
+  · simp only [h, if_false]; exact hk h
+
+theorem writeW_lax (bk : BK) (w : W) (s : Text) : LaxOK bk w.buf (resW (writeW bk w s)).buf := by
+  unfold writeW write
+  cases bk with
+  | null => exact laxok_refl _ _
+  | real lim =>
+    simp only
+    by_cases hs : s = []
+    · simp [hs, resW, laxok_refl]
+    · simp only [hs, if_false]
+      cases lim with
+      | none => exact ⟨fun hn => (by cases hn), fun _ => trivial⟩
+      | some l =>
+        simp only
+        by_cases h1 : w.buf.size + utf8Len s > l
+        · simp only [h1, if_true, resW]
+          refine ⟨fun hn => (by cases hn), fun hi => ?_⟩
+          simp only [LInv] at hi ⊢
+          omega
+        · simp only [h1, if_false, resW]
+          refine ⟨fun hn => (by cases hn), fun hi => ?_⟩
+          simp only [LInv, utf8Len_append] at hi ⊢
+          omega
+
+theorem assignW_resbuf (L : Limits) (P : Prog) (c : Cx) (w : W) (name : String) (v : Val) :
+    (resW (assignW L P c w name v)).buf = w.buf := by
+  unfold assignW
+  simp only []
+  split <;> rfl
+
+theorem cycleW_lax (P : Prog) (c : Cx) (bk : BK) (w : W) (g : Text) (a : List Expr) :
+    LaxOK bk w.buf (resW (cycleW P c bk w g a)).buf := by
+  unfold cycleW
+  have hb : (cyclePick P c w g a).1.buf = w.buf := rfl
+  split
+  · exact laxok_of_eq hb
+  · have := writeW_lax bk (cyclePick P c w g a).1 (toStr ‹Val›); rwa [hb] at this
+
+theorem cellOpen_lax (bk : BK) (w : W) (col : Option Nat) : LaxOK bk w.buf (resW (cellOpen bk w col)).buf := by
+  cases col with
+  | none => exact laxok_refl _ _
+  | some k => exact writeW_lax _ _ _
+
+theorem cellClose_lax (bk : BK) (w : W) (col : Option Nat) : LaxOK bk w.buf (resW (cellClose bk w col)).buf := by
+  cases col with
+  | none => exact laxok_refl _ _
+  | some k => exact writeW_lax _ _ _
+
+theorem lax_all (L : Limits) (P : Prog) :
+    (∀ c bk w node, LaxOK bk w.buf (resW (render L P c bk w node)).buf) ∧
+    (∀ c bk w g key body items, LaxOK bk w.buf (resW (iterPartial L P c bk w g key body items)).buf) ∧
+    (∀ c bk w body, LaxOK bk w.buf (resW (renderPartial L P c bk w body)).buf) ∧
+    (∀ c bk w nodes, LaxOK bk w.buf (resW (renderTop L P c bk w nodes)).buf) ∧
+    (∀ c bk w var body col items, LaxOK bk w.buf (resW (iter L P c bk w var body col items)).buf) ∧
+    (∀ c bk w nodes blank, LaxOK bk w.buf (resW (renderBlock L P c bk w nodes blank)).buf) ∧
+    (∀ c bk w nodes, LaxOK bk w.buf (resW (renderList L P c bk w nodes)).buf) := by
+  apply render.mutual_induct L P
+    (motive1 := fun c bk w node => LaxOK bk w.buf (resW (render L P c bk w node)).buf)
+    (motive2 := fun c bk w g key body items => LaxOK bk w.buf (resW (iterPartial L P c bk w g key body items)).buf)
+    (motive3 := fun c bk w body => LaxOK bk w.buf (resW (renderPartial L P c bk w body)).buf)
+    (motive4 := fun c bk w nodes => LaxOK bk w.buf (resW (renderTop L P c bk w nodes)).buf)
+    (motive5 := fun c bk w var body col items => LaxOK bk w.buf (resW (iter L P c bk w var body col items)).buf)
+    (motive6 := fun c bk w nodes blank => LaxOK bk w.buf (resW (renderBlock L P c bk w nodes blank)).buf)
+    (motive7 := fun c bk w nodes => LaxOK bk w.buf (resW (renderList L P c bk w nodes)).buf)
+  case case1 => intro c bk w s; simp only [render]; exact writeW_lax _ _ _
+  case case2 => intro c bk w e; simp only [render]; exact writeW_lax _ _ _
+  case case3 => intro c bk w name e; simp only [render]; exact laxok_of_eq (assignW_resbuf ..)
+  case case4 =>
+    intro c bk w name body _
+    simp only [render]
+    refine laxok_of_eq ?_
+    cases renderBlock L P c (subKind L bk w.buf) { w with buf := ⟨0, []⟩ } body (blankList body) with
+    | error p => cases p; rfl
+    | ok w1 => exact assignW_resbuf ..
+  case case5 =>
+    intro c bk w body _
+    simp only [render]
+    cases renderBlock L P c (subKind L bk w.buf) { w with buf := ⟨0, []⟩ } body (blankList body) with
+    | error p => cases p; exact laxok_refl _ _
+    | ok w1 =>
+      simp only [mapErr, bindR]
+      split
+      · exact writeW_lax bk { w1 with buf := w.buf, ifch := w1.buf.text } _
+      · exact laxok_refl _ _
+  case case6 => intro c bk w g a; simp only [render]; exact cycleW_lax ..
+  case case7 =>
+    intro c bk w cond body els h ih
+    simp only [render, if_pos h]; exact ih
+  case case8 =>
+    intro c bk w cond body els h ih
+    simp only [render, if_neg h]; exact ih
+  case case9 =>
+    intro c bk w cond body els h ih
+    simp only [render, if_pos h]; exact ih
+  case case10 =>
+    intro c bk w cond body els h ih
+    simp only [render, if_neg h]; exact ih
+  case case11 =>
+    intro c bk w args body h
+    simp only [render, dif_pos h]; exact laxok_refl _ _
+  case case12 =>
+    intro c bk w args body h ih
+    simp only [render, dif_neg h]; exact ih
+  case case13 =>
+    intro c bk w var src body dflt hn ih
+    simp only [render, if_pos hn, dite_eq_ite]
+    exact lax_guard (laxok_refl _ _) (lax_depth (laxok_refl _ _) (fun hd => ih hd))
+  case case14 =>
+    intro c bk w var src body dflt hn ih
+    simp only [render, if_neg hn]; exact ih
+  case case15 =>
+    intro c bk w var src body ih
+    simp only [render, dite_eq_ite]
+    refine lax_guard (laxok_refl _ _) (lax_bind (writeW_lax _ _ _) (fun w0 _ => ?_))
+    refine lax_depth (laxok_refl _ _) (fun hd => ?_)
+    exact lax_bind (ih w0 hd) (fun w1 _ => writeW_lax _ _ _)
+  case case16 =>
+    intro c bk w name bind args ih1 ih2 ih3
+    simp only [render, dite_eq_ite]
+    refine lax_guard (laxok_refl _ _) ?_
+    cases lookupA P.templates name with
+    | none => exact laxok_refl _ _
+    | some body =>
+      simp only []
+      refine lax_guard (laxok_refl _ _) (lax_depth (laxok_refl _ _) (fun hd => ?_))
+      cases boundInclude P _ w bind with
+      | none => exact ih1 body hd
+      | one key v => exact ih2 body hd key v
+      | many key items => exact lax_guard (laxok_refl _ _) (ih3 body hd key items)
+  case case17 =>
+    intro c bk w name bind args hl
+    simp only [render, hl]; exact laxok_refl _ _
+  case case18 =>
+    intro c bk w name bind args body hl ih1 ih2 ih3
+    simp only [render, hl, dite_eq_ite]
+    refine lax_guard (laxok_refl _ _) (lax_depth (laxok_refl _ _) (fun hd => ?_))
+    cases boundRender P c w bind with
+    | none => simp only []; rw [resW_restore_buf]; exact ih1 hd
+    | one key v => simp only []; rw [resW_restore_buf]; exact ih2 hd key v
+    | many key items =>
+      simp only []
+      refine lax_guard (laxok_refl _ _) ?_
+      rw [resW_restore_buf]; exact ih3 hd key items
+  case case19 => intro c bk w g key body; simp only [iterPartial]; exact laxok_refl _ _
+  case case20 =>
+    intro c bk w g key body itm rest ih1 ih2
+    simp only [iterPartial]
+    exact lax_bind ih1 (fun w1 _ => ih2 w1)
+  case case21 =>
+    intro c bk w body h
+    simp only [renderPartial, dif_pos h]; exact laxok_refl _ _
+  case case22 =>
+    intro c bk w body h ih
+    simp only [renderPartial, dif_neg h]; exact ih
+  case case23 => intro c bk w; simp only [renderTop]; exact laxok_refl _ _
+  case case24 =>
+    intro c bk w n ns ih1 ih2
+    simp only [renderTop]
+    refine lax_bind (by rw [resW_catch]; exact ih1) (fun w1 _ => ih2 w1)
+  case case25 => intro c bk w var body col; simp only [iter]; exact laxok_refl _ _
+  case case26 =>
+    intro c bk w var body col itm rest ih1 ih2
+    simp only [iter]
+    refine lax_bind (cellOpen_lax _ _ _) (fun w0 _ => ?_)
+    refine lax_bind (ih1 w0) (fun w1 _ => ?_)
+    exact lax_bind (cellClose_lax _ _ _) (fun w2 _ => ih2 w2)
+  case case27 =>
+    intro c bk w nodes blank ih
+    simp only [renderBlock]
+    simp only [dite_eq_ite] at ih
+    exact laxok_blank ih
+  case case28 => intro c bk w; simp only [renderList]; exact laxok_refl _ _
+  case case29 =>
+    intro c bk w n ns ih1 ih2
+    simp only [renderList]
+    exact lax_bind ih1 (fun w1 _ => ih2 w1)
+
+theorem renderTop_within_limit (L : Limits) (P : Prog) (c : Cx) (l : Nat) (w : W) (nodes : List Node)
+    (h : renderTop L P c (.real (some l)) initW nodes = .ok w) : utf8Len w.buf.text ≤ l := by
+  have := ((lax_all L P).2.2.2.1 c (.real (some l)) initW nodes).2
+  rw [h] at this
+  exact (this (by simp [LInv, initW, utf8Len])).2
+
+/-- in LAX/WARN mode the node loop never fails: every node's error is dropped -/
+theorem renderTop_lax_ok (L : Limits) (P : Prog) (hlax : P.lax = true) (c : Cx) (bk : BK) (w : W) (nodes : List Node) :
+    ∃ w', renderTop L P c bk w nodes = .ok w' := by
+  induction nodes generalizing w with
+  | nil => exact ⟨w, by simp only [renderTop]⟩
+  | cons n ns ih =>
+    simp only [renderTop, hlax]
+    cases render L P c bk w n with
+    | error p => cases p; simpa [catchR, bindR] using ih _
+    | ok w1 => simpa [catchR, bindR] using ih _
+
 /-! ## Tables compared with the generated source tables (C08) -/
 
 /-- `cls` is `target` or has it among its (transitive) bases in the class table -/
